@@ -13,6 +13,7 @@ import (
 	"math/big"
 	"math/rand"
 	"os"
+	"strings"
 	"time"
 
 	"github.com/idena-network/idena-go/blockchain/fee"
@@ -163,6 +164,10 @@ func c06run(c *hx.Ctx, cs c06case) error {
 				}
 			}
 		}
+		hadRecord := make([]bool, len(w.Keys))
+		for i := range w.Keys {
+			hadRecord[i] = n.App.State.GetNonce(w.Addrs[i]) != 0 || n.App.State.GetEpoch(w.Addrs[i]) != 0
+		}
 		blk, err := h.Step(b)
 		if err == chainfx.ErrNotEligible {
 			c.Hit("history-ended:proposer-not-eligible")
@@ -186,7 +191,19 @@ func c06run(c *hx.Ctx, cs c06case) error {
 			}
 		}
 		if blk.Header.Flags().HasFlag(types.ValidationFinished) {
-			c.Line("epoch", "ok")
+			// accounts whose record (nonce, epoch) vanished at this epoch change: dust clearing
+			var cleared []string
+			for i := range w.Keys {
+				if hadRecord[i] && n.App.State.GetNonce(w.Addrs[i]) == 0 && n.App.State.GetEpoch(w.Addrs[i]) == 0 {
+					cleared = append(cleared, fmt.Sprint(i))
+				}
+			}
+			if len(cleared) > 0 {
+				c.Line("epochclear "+strings.Join(cleared, "."), "ok")
+				c.Hit("epoch-change-with-dust-clearing")
+			} else {
+				c.Line("epoch", "ok")
+			}
 			c.Hit("epoch-change")
 		}
 		c.Line("blk", "ok")
